@@ -114,6 +114,86 @@ ADDRACE = Harness(
 )
 
 
+# ------------------------------------------------------------------------------ G-cross
+def cross_params(tier):
+    return [P("layout", 0, 1), P("delay", 0, 2), P("api", 0, 1)] + [P(f"s{i}", 0, 2) for i in range(3 if tier == "quick" else 5)]
+
+
+@guard
+def cross_fn(a, tier):
+    """Generations of ONE factory pending in two different contexts at the same time: each context generates its own, neither waits for the other's."""
+    layout, delay, api = pick(a["layout"], 2), pick(a["delay"], 3), pick(a["api"], 2)
+    tape = Tape([a[f"s{i}"] for i in range(3 if tier == "quick" else 5)])
+    calls, got = [], {}
+
+    async def main():
+        gate = anyio.Event()
+
+        async def factory():
+            calls.append(current_context())
+            v = Val(f"gen#{len(calls)}")
+            if anyio.get_current_task().id == got.get("first_task"):
+                await gate.wait()  # this generation cannot finish before the OTHER context has been served
+            else:
+                await anyio.sleep(0)
+            return v
+
+        async with Context() as parent:
+            parent.add_resource_factory(factory, "a", types=[T0])
+
+            async def first():
+                got["first_task"] = anyio.get_current_task().id
+                if layout == 0:
+                    got["first"] = (parent, await parent.get_resource(T0, "a"))
+                else:
+                    async with Context() as sib:
+                        got["first"] = (sib, await sib.get_resource(T0, "a"))
+
+            async def second():
+                for _ in range(delay):
+                    await anyio.sleep(0)
+                async with Context() as child:
+                    if api == 0:
+                        r = await child.get_resource(T0, "a")
+                    else:
+                        r = await INJECTED[(T0, "a")][1]()
+                    got["second"] = (child, r)
+                    gate.set()
+
+            async with anyio.create_task_group() as tg:
+                tg.start_soon(first)
+                tg.start_soon(second)
+
+    _, exc, _k = run(main, chooser=tape)
+    summary = {"first_lookup_in": ["the parent", "a sibling context"][layout], "second_lookup_in": "a child context created while the first generation is pending",
+               "second_lookup_via": ["get_resource", "injected coroutine function"][api], "delay": delay, "schedule": tape.taken}
+    if exc is not None:
+        raise exc
+    if "first" not in got or "second" not in got:
+        return FAIL("cross:lookup-missing", f"{got}", summary)
+    if len(calls) != 2 or got["first"][1] is got["second"][1]:
+        return FAIL(f"cross:each-context-must-generate-its-own:calls={len(calls)}", f"{got}", summary)
+    ctxs = {id(got["first"][0]), id(got["second"][0])}
+    if {id(c) for c in calls} != ctxs:
+        return FAIL("cross:factory-ran-in-the-wrong-context", "", summary)
+    return OK(summary, True)
+
+
+CROSS = Harness(
+    prop="C04",
+    name="G-cross",
+    fn=cross_fn,
+    params=cross_params,
+    cube=lambda tier: 2,
+    title="generations of one async factory pending in two contexts at once",
+    bound_text=lambda tier: "factory registered in the parent; first lookup in the parent / in a sibling context, its generation cannot finish before a second context "
+    f"(a child created 0-2 checkpoints later) has been served through get_resource / an injected coroutine function; first {3 if tier == 'quick' else 5} scheduling decisions arbitrary",
+    oracle="both lookups return (no context waits for another context's generation), the factory ran once in each context, two distinct objects",
+    outside="more than two contexts",
+    stubs=STUBS_COMMON,
+)
+
+
 # ------------------------------------------------------------------------------ G-race
 APIS = ["await get_resource(T0)", "await get_resource(T1)", "get_resource_nowait(T0)", "injected async fn (T0)"]
 
@@ -297,7 +377,7 @@ RACE = Harness(
     stubs=STUBS_COMMON,
 )
 
-HARNESSES = [R, R4, RACE, ADDRACE]
+HARNESSES = [R, R4, RACE, ADDRACE, CROSS]
 
 
 # ------------------------------------------------------------------------------ K-comp
